@@ -196,6 +196,9 @@ def one(ctx, rng, xr, ws, fmt, d):
             path = os.path.join(d, "out.txt")
             ds.spec.to_funwave(path, clip=clip) if not clip or rng.random() < 0.5 else ds.spec.to_funwave(path)
             back = ws.read_funwave(path)
+            if rng.random() < 0.3:
+                rec.note("engine:funwave")
+                funwave_cmp(rec, key0 + "|engine=funwave", ds, xr.open_dataset(path, engine="funwave").load())
             return funwave_cmp(rec, key0, ds, back)
     except Exception as e:
         mech = "roundtrip-raises:" + base
@@ -204,6 +207,17 @@ def one(ctx, rng, xr, ws, fmt, d):
         rec.bad("roundtrip_" + base, key0, {"raised": repr(e)[:400], "options": opts, "sizes": dict(ds.sizes)}, mech)
         return
     compare(rec, base, key0, ds, back, kinds, opts)
+    if rng.random() < 0.3:
+        # the registered xarray engine of the format opens the same file: held against the written dataset like the reader
+        eng = {"swan": "swan", "octopus": "octopus", "json": "json", "netcdf": str(rng.choice(["wavespectra", "netcdf"])), "ww3": "ww3"}[base]
+        try:
+            back3 = xr.open_dataset(path, engine=eng).load()
+            back3.close()
+        except Exception as e:
+            rec.bad("roundtrip_" + base, key0 + "|engine=" + eng, {"raised": repr(e)[:400]}, "backend-entrypoint-raises:" + eng)
+            return
+        rec.note("engine:" + eng)
+        compare(rec, base, key0 + "|engine=" + eng, ds, back3, kinds, opts)
     if base in ("ww3", "netcdf") and "site" in ds.dims:
         # these formats store the station identifiers: they come back as written (numbers as numbers, names as names)
         lw, lr = [str(v) for v in ds["site"].values], [str(v) for v in (back["site"].values if "site" in back.coords else [])]
